@@ -513,6 +513,7 @@ macro_rules! global_entry_sink {
 
                     let read = SINK.read().unwrap();
                     if let Some((sink, _handle)) = read.as_ref() {
+                        $crate::__verif_point!("gs.lookup");
                         sink.append(entry);
                         Ok(())
                     } else {
